@@ -10,19 +10,27 @@
 //! `merge disk`, the model's upper layer.
 //!
 //! Direct oracles (implementation alone):
-//!   C10:lower-modified:<op>            fingerprint of a lower directory changed
+//!   C10:lower-modified:<op>            fingerprint (names, modes, owners, content, every xattr,
+//!                                      mtime/ctime) of a lower directory changed
 //!   C10:no-upper:<op>:succeeded        modifying op succeeded without an upper layer
 //!   C10:no-upper:<op>:mutating-call    a mutating layer method was called without an upper layer
 //!   C10:mutated-lower-layer:<method>   a mutating method reached a layer that is not the upper
 //!   C10:view-not-union:<live|fresh>:<op>:<kind>   walked tree differs from the overlayfs union of
-//!                                      the directories on the host (independent Rust union)
+//!                                      the directories on the host (independent Rust union);
+//!                                      kind = extra|missing|type|mode|content|target|xattr
 //!   C10:not-plain-fs:<op>:<kind>       result / tree differs from the same history applied with
 //!                                      plain syscalls to an ordinary directory holding the union
-//!   C10:readdir:<dup|dot>              a name listed twice
+//!   C10:readdir:<dup|dot>              a name listed twice / "." ".." not listed exactly once
+//!   C10:copy-up:xattr-lost:<file|dir>  KNOWN: copy-up drops user.* xattrs (the plain reference is
+//!                                      re-aligned so that nothing else is masked)
+//!   C10:panic                          the overlay panicked
 //!   C11:restart-diff:<op>:<kind>       fresh instance walks to a different tree than the live one
+//!   C11:deleted-resurfaced:<op>        a path just unlinked / rmdir'ed is visible after a restart
+//!   C11:recreated-dir-not-empty        a directory just made shows entries after a restart
+//!   C11:rmdir-empty-dir-refused        RMDIR of a directory that is empty in the view: ENOTEMPTY
 //!   C11:copy-up:<attr>                 an attribute the op does not touch differs between the
-//!                                      lower original and its new upper copy (type, mode,
-//!                                      content, target, parent-mode)
+//!                                      lower original and its new upper copy (type:<a>-became-<b>,
+//!                                      mode, content, target, parent-mode)
 use std::collections::{BTreeMap, BTreeSet};
 use std::ffi::{CStr, CString};
 use std::io::{self, Read, Seek, SeekFrom, Write};
